@@ -207,6 +207,8 @@ def oracle(case, line, P):
     group_of = dict(enumerate(groups))
     inflight = {}            # tracker id -> event of the announce in flight
     scraping = set()         # trackers with a scrape in flight
+    used = set()             # trackers with a counted success since the statistics were last reset (enable / start)
+    was_active = False
     done_ev = {}             # tracker id -> event of the announce whose reply the worker has produced but main has not counted yet
     pend_start = pend_comp = ever_start = ever_comp = False
     stats = (0, 0, 0)
@@ -232,10 +234,19 @@ def oracle(case, line, P):
                     scraping.discard(tid)
                 elif tid in inflight:
                     done_ev[tid] = inflight.pop(tid)
+        # answered and requested again within the op (the counters moved although it is busy before and after)
+        for tid, t in post.items():
+            p = pre_trs.get(tid)
+            if p and p["busy"] and t["busy"] and (t["fc"] == p["fc"] + 1 or t["sc"] == p["sc"] + 1) and any(q["id"] == tid for q in st["reqs"]):
+                if tid in scraping:
+                    scraping.discard(tid)
+                elif tid in inflight:
+                    done_ev[tid] = inflight.pop(tid)
         # the main thread counted a reply: an accepted announce delivers the event it carried
         for tid, t in post.items():
             p = pre_trs.get(tid)
             if p and t["sc"] == p["sc"] + 1:
+                used.add(tid)
                 ev_done = done_ev.pop(tid, None)
                 if ev_done == EV_STARTED:
                     pend_start = False
@@ -243,6 +254,10 @@ def oracle(case, line, P):
                     pend_comp = False
             elif p and t["fc"] == p["fc"] + 1:
                 done_ev.pop(tid, None)
+        # enable() on an inactive controller resets every tracker's statistics (enable_dont_reset_stats does not)
+        if o in ("en", "ST") and not was_active:
+            used = set()
+        was_active = bool(st["fl"] & F_ACTIVE)
         if o in ("ST", "STK"):
             base = (raw[0], raw[1])
             stats = (0, 0, raw[2])
@@ -300,8 +315,8 @@ def oracle(case, line, P):
                 bad.append((kl, "announce without 'completed' while a completed is pending at " + where))
             if ev == EV_STOPPED:
                 p = pre_trs[tid]
-                if o not in ("sp", "SP") or not (p["en"] and p["sc"] > 0):
-                    bad.append((None, "'stopped' sent outside stop or to a tracker never used at " + where))
+                if o not in ("sp", "SP") or not p["en"] or tid not in used:
+                    bad.append((None, "'stopped' sent outside stop or to a tracker that was not successfully used in this session at " + where))
             if ev == EV_STARTED and not ever_start:
                 bad.append((None, "'started' sent although the client never asked for a start at " + where))
             if ev == EV_COMPLETED and not ever_comp:
@@ -510,4 +525,10 @@ def run(rep, tier, seed, replay):
                    exhaustive=(tier != "quick"))
     rep.assumptions += ["tracker thread handles Manager::send_event callbacks before the next main-thread event (harness quiesces after every op)",
                         "no scrape requests and no DHT-type tracker (not modelled); counters below 2^32; interval values within int64",
-                        "send_stop_event is always followed by disable (the only use in src/torrent/download.cc)"]
+                        "send_stop_event is always followed by disable (the only use in src/torrent/download.cc)",
+                        "at most ONE worker result callback is kept queued for the main thread (ops dok/dfl/dfi are dropped while one is queued, by model and harness alike): "
+                        "with two queued callbacks the main thread runs both in one batch; if the first is a failure its do_timeout hands a new request to the tracker "
+                        "thread, whose remove_events() for the second callback's tracker then RACES with the main thread reaching that callback in the same batch "
+                        "(Thread::process_callbacks checks the cancellation generation only when it gets to the entry). That outcome is genuinely schedule dependent, "
+                        "so it cannot be compared against a deterministic model; the theorems (stale_reply_never_accepts, drain_accepts_only_carrier) are about the one-slot queue",
+                        "two controller timers due at the same instant fire announce-timer first (the order is the scheduler heap's, not constrained by the property; the harness imposes it)"]
